@@ -281,7 +281,7 @@ def gen_cases(tier, seed):
     rng = random.Random(seed)
     thorough = tier == "thorough"
     cases = _exhaustive(thorough) + _ctor_cases()
-    n_rand = 25000 if thorough else 1600
+    n_rand = 12000 if thorough else 1600
     rnd = []
     for i in range(n_rand):
         c = _rand_cfg(rng)
